@@ -180,6 +180,12 @@ def edited_after_export_programs():
         "setattr-port": lambda m: setattr(m, "w", h.Port(width=2)),
         "reconnect": lambda m: m.u2.connect("a", h.Signal(name="nowhere")),
         "disconnect": lambda m: m.u2.disconnect("a"),
+        # an object the module already holds, assigned / added under another name (a move)
+        "move-signal-onto-used-name": lambda m: setattr(m, "w", m.v),
+        "move-signal-onto-new-name": lambda m: setattr(m, "x", m.v),
+        "move-instance": lambda m: setattr(m, "u3", m.u2),
+        "instance-onto-signal-name": lambda m: setattr(m, "v", m.u2),
+        "add-held-signal": lambda m: m.add(m.v),
     }
     for name, edit in edits.items():
         for depth in (0, 1):
@@ -279,6 +285,43 @@ def param_programs():
     for which in ("mos-defaults", "res", "sources"):
         yield (f"params/paramclass/{which}", classes(which))
 
+    # generated modules whose parameter values are written with dots (floats, paths): module names are dot-separated
+    # paths, which importers and netlisters split - two such modules in one design must stay two sub-circuits
+    def dotted(kind):
+        def b():
+            @h.paramclass
+            class DP:
+                w = h.Param(dtype=float, desc="w", default=1.0)
+                path = h.Param(dtype=str, desc="p", default="x")
+                n = h.Param(dtype=int, desc="n", default=1)
+
+            @h.generator
+            def DotGen(p: DP) -> h.Module:
+                m = h.Module()
+                m.a = h.Port()
+                m.r = h.R(r=p.w)(p=m.a, n=m.a)
+                return m
+
+            @h.generator
+            def DotOther(p: DP) -> h.Module:
+                m = h.Module()
+                m.a = h.Port()
+                m.c = h.C(c=p.w)(p=m.a, n=m.a)
+                return m
+            top = h.Module(name="DotTop")
+            top.s = h.Signal()
+            calls = {"two-floats": (DotGen(w=1.5), DotGen(w=2.5)), "two-generators": (DotGen(w=1.5), DotOther(w=1.5)),
+                     "paths": (DotGen(path="a/m.lib"), DotGen(path="b/m.lib")), "one-float": (DotGen(w=0.5),),
+                     "whole-floats": (DotGen(w=2.0), DotGen(w=12.0)), "ints": (DotGen(n=2), DotGen(n=12)),
+                     "dots-only": (DotGen(path="."), DotGen(path="..")),
+                     "float-vs-int-text": (DotGen(w=1.0, path="5"), DotGen(w=15.0, path=""))}[kind]
+            for k, c in enumerate(calls):
+                top.add(c(a=top.s), name=f"g{k}")
+            return top
+        return b
+    for kind in ("two-floats", "two-generators", "paths", "one-float", "whole-floats", "ints", "dots-only", "float-vs-int-text"):
+        yield (f"params/dotted-generated-names/{kind}", dotted(kind))
+
 
 def check_pkg(case):
     import hdl21 as h
@@ -312,7 +355,7 @@ def run(ctx):
     ctx.run_bounded("wf_package(to_proto(design))", cases, check_pkg,
                     rule=RULE + "; every concatenation of two or three pieces of one bus (C01's family, 285 designs); sample-PDK-compiled and walked designs holding two- and three-terminal passives of equal parameters (24); plus Series/MosStack/Wrapper over small parameter ranges; modules whose names were "
                          "re-used for another kind (16 pairs); modules edited after a first export (7 edits x 2 depths); the single-fault designs of C02 (a package returned for "
-                         "one of them must still be well-formed); the adversarially named designs of C05; instances with unset (None) parameters in param-classes, parameter dictionaries, ASAP7-compiled devices (15)",
+                         "one of them must still be well-formed); the adversarially named designs of C05; instances with unset (None) parameters in param-classes, parameter dictionaries, ASAP7-compiled devices (15); generated modules whose parameter values are written with dots (8); refused moves of held objects on exported modules (10)",
                     bound="depth<=3, widths<=4 (8 thorough)", key_of=lambda c: c[0],
                     nontrivial=lambda c: nontrivial(c[0]))
     return INFO
